@@ -87,4 +87,22 @@ var plans = map[string]plan{
 		Rule: "each case is a generated module (package p with 1-3 families of mutually assignable types - several named types and the unnamed type over one underlying type - used side by side as struct fields under hash/equal/compare/clone/gostring/deepcopy plus 2-12 random calls, package q importing p with calls of its own); judged: one sha256 of p/derived.gen.go over N identical fresh runs (quick 6, thorough 25) and over 6 further invocation spellings (., ./..., import path, package list in both orders); non-trivial = >= 2 tie members or >= 3 plugins; distinct by sources",
 		Assumptions: []string{"map iteration order is re-randomised by the Go runtime on every run; a very skewed choice could survive N runs"},
 	},
+	"C10": {
+		Quick:    tierPlan{Shards: 16, Checks: 40, Shrink: "60s", Limit: 30 * time.Minute},
+		Thorough: tierPlan{Shards: 16, Checks: 1500, Shrink: "5m", Limit: 4 * time.Hour},
+		Rule: "each case is a generated module: package p with 1-3 user files (gofmt-formatted or not, file/leading/trailing/inline comments around the calls), 1-6 derive calls whose names (lengths 11-70) and argument types are drawn so that conflicts and duplicates occur, an optional bystander file without derive calls, a non-Go file and a second package; run with one of the 4 flag sets and one of 3 outcomes (normal, generator error, load error); judged by a recursive snapshot (path, mode, sha256): without flags only p/derived.gen.go may differ; with flags a user file may change only if a derive call in it was renamed and must equal gofmt(original text with the renamed call identifiers substituted at the offsets found by an independent parse); non-trivial = a run that renames a call in place, or a failing run; distinct by (flags, sources)",
+		Assumptions: []string{"go/format as the definition of 'the gofmt formatting'"},
+	},
+	"C11": {
+		Quick:    tierPlan{Shards: 16, Checks: 15, Shrink: "60s", Limit: 30 * time.Minute},
+		Thorough: tierPlan{Shards: 16, Checks: 400, Shrink: "5m", Limit: 4 * time.Hour},
+		Rule: "exhaustive part: every assignment of k <= 3 (thorough: k <= 4) derive calls to names and argument types up to relabelling (all pairs of set partitions of the call positions, i.e. which calls share a name and which share a type list), x bare-prefix name first or second x calls in one file or alternating over two files x plugins {equal, hash, keys} x the 4 flag sets x with/without a user function that has the first fresh name; random part: 4-9 calls over 6 names x 4 types x 3 files; judged: exit status against an independently computed conflict/duplicate predicate, and on success go/types: package type-checks, each call site's callee has exactly the argument types, is generated (not the user's), and after -dedup one generated function per parameter list; non-trivial = assignment with a clash; distinct by canonical assignment + flags",
+		Assumptions: []string{"the four argument types are pairwise non-assignable, as the property quantifies"},
+	},
+	"C12": {
+		Quick:    tierPlan{Shards: 16, Checks: 6, Shrink: "60s", Limit: 30 * time.Minute},
+		Thorough: tierPlan{Shards: 16, Checks: 120, Shrink: "5m", Limit: 4 * time.Hour},
+		Rule: "each case is a generated package (3-12 calls of structural and list plugins over the supported grammar) emitted with default names and with names rewritten for a drawn prefix map: a global -prefix, 1-4 per-plugin overrides (optionally on top of a global prefix), or nested overrides where one plugin's prefix is a proper prefix of another's (2-3 levels, either plugin may have the longer default prefix); the customised run uses the registered plugin order and one of three binaries built from a scratch copy of the repository whose registration list is reversed / rotated / sorted; judged: customised run succeeds, both outputs canonicalised (every generated function renamed to <plugin by longest configured prefix>(parameter types), declarations sorted) are equal, and for a global prefix the text is identical after substituting the prefix; non-trivial = nested overrides or >= 3 overrides; distinct by (flags, sources)",
+		Assumptions: []string{"the registration list in main.go keeps the form 'x.NewPlugin(),' per line (otherwise the order variants are skipped and said so in the notes)"},
+	},
 }
